@@ -232,7 +232,7 @@ def run(tier, v):
     runs = [("Archive_quick.cfg", r)]
     if not quick:
         for cfg in ("Archive_thorough.cfg", "Archive_thorough_pipe.cfg"):
-            r2 = vlib.tlc("Archive", cfg, timeout=3000, heap="6g", workers=WORKERS)
+            r2 = vlib.tlc("Archive", cfg, timeout=3000, heap="4g", workers=WORKERS)
             if not r2["ok"]:
                 raise vlib.Infra("Archive model violates %s on the design level (%s):\n%s" % (r2["violated"], cfg, r2["out"][-3000:]))
             runs.append((cfg, r2))
